@@ -10,7 +10,7 @@ import (
 const xferRule = "cases = PRNG-determined histories of ICS-20 transfers (native and voucher denoms; v1, v2 client pair, v2 over alias; 3 chains in a triangle) with forward memos of depth 1-2, failing receivers, disabled receives, timeouts, duplicates and unauthorised senders, relayed in random order and ended by an honest drain; " +
 	"monitors compare every block with an independent ledger model and the per-channel conservation identity; distinct = distinct sequences of (operation, outcome class); non-trivial = at least one transfer failed or was forwarded"
 
-func runXfer(t *testing.T, prop string, level string, quick, thorough, ops int, topo func() Topology, tw func(*Profile), floors map[string]int64) {
+func runXfer(t *testing.T, prop string, level string, quick, thorough, ops int, topo0 func() Topology, tw func(*Profile), floors map[string]int64) {
 	c := kit.NewCheck(t, prop, level, xferRule)
 	defer c.Finish()
 	c.Assume("bank module, SDK tx atomicity and light-client proof verification are trusted base; application stack as wired in testing/simapp (rate-limit → packet-forward → transfer; transfer v2 behind rate-limit v2)")
@@ -30,6 +30,11 @@ func runXfer(t *testing.T, prop string, level string, quick, thorough, ops int, 
 		var classes []string
 		nontrivial := false
 		err := kit.Try(func() {
+			topo := topo0
+			if i%2 == 1 && prop != "C32" {
+				// every other case: v2 client pairs on all links, with different client ids on the two ends
+				topo = TriangleV2
+			}
 			s := NewSim(c, r, topo())
 			nops := ops/2 + r.Intn(ops)
 			for j := 0; j < nops; j++ {
